@@ -457,7 +457,7 @@ func (fc *fnCtx) pureFacts(ce *callee, con *Contract, args []Val, res []Val) {
 		return
 	}
 	fc.pureDone[key] = true
-	if fc.depth > 3 || fc.inQuant > 0 {
+	if fc.depth > 1 || fc.inQuant > 0 {
 		delete(fc.pureDone, key)
 		return
 	}
@@ -486,7 +486,18 @@ func (fc *fnCtx) pureFacts(ce *callee, con *Contract, args []Val, res []Val) {
 	}
 	f := Imp(And(pre...), And(facts...))
 	if f != "true" {
-		fc.sc.Axiom(f, Sym("f!"+ce.name))
+		// include the instance only in queries that mention this very application's arguments
+		trig := map[string]bool{}
+		for _, a := range args {
+			symbolsOf(a.T, trig)
+		}
+		tl := []string{Sym("f!" + ce.name)}
+		for _, k := range sortedKeys(trig) {
+			if fc.sc.Has(k) && k != tl[0] {
+				tl = append(tl, k)
+			}
+		}
+		fc.sc.Axiom(f, tl...)
 	}
 }
 
